@@ -13,18 +13,26 @@ def _cost_function_obligation(repo):
     assignment_ops.h3_distance_cost (whose contract is `h3.h3_distance of the two cells`)"""
     import ast
     path = "nrel/hive/dispatcher/instruction_generator/dispatcher.py"
-    bad, n = [], 0
+    bad, unresolved, n = [], [], 0
+    ao = repo.modules["nrel/hive/dispatcher/instruction_generator/assignment_ops.py"].tree
+    other_costs = {f.name for f in ao.body if isinstance(f, ast.FunctionDef) and f.name != "h3_distance_cost"}
     for node in ast.walk(repo.modules[path].tree):
         if isinstance(node, ast.Call) and ast.unparse(node.func).endswith("find_assignment"):
             n += 1
             arg = node.args[2] if len(node.args) > 2 else next((k.value for k in node.keywords if k.arg == "cost_fn"), None)
             txt = ast.unparse(arg) if arg is not None else "<missing>"
             if txt not in ("assignment_ops.h3_distance_cost", "h3_distance_cost"):
-                bad.append(f"line {node.lineno}: cost function {txt}")
-    ok = n > 0 and not bad
+                # another cost function of assignment_ops (its contract is not the grid distance) refutes the clause;
+                # an expression this rule cannot resolve (a local, a lambda) leaves it undecided
+                name = txt.split(".")[-1]
+                known_other = name in other_costs
+                (bad if known_other else unresolved).append(f"line {node.lineno}: cost function {txt}")
+    if n == 0:
+        unresolved.append("no find_assignment call found in the dispatcher")
+    status = "refuted" if bad else ("unknown" if unresolved else "proved")
     return {"id": "C12.cost_function_is_grid_distance.Dispatcher.generate_instructions", "kind": "call-site-rule",
-            "status": "proved" if ok else "refuted", "backend": "ast-rule", "secs": 0.0, "props": ["C12"],
-            "detail": "" if ok else ("; ".join(bad) or "no find_assignment call found in the dispatcher")}
+            "status": status, "backend": "ast-rule", "secs": 0.0, "props": ["C12"], "no_regress": True,
+            "detail": "; ".join(bad + unresolved)}
 
 
 def extra_obligations(repo, world, ex, R, tier, timeout_ms):
